@@ -428,6 +428,20 @@ def run_case(case: dict) -> CaseResult:
                     for name, status, val in r:
                         if status != "ok" and not isinstance(val, APIConnectionError):
                             viol.append(V(f"c19:request-raised:{type(val).__name__}", repr(val)[:200]))
+                elif what == "pingtimeout_busy":
+                    if st_ != "CONNECTED":
+                        stats["skipped"] += 1
+                        continue
+                    # the device vanishes while the application keeps issuing fire-and-forget commands (what the client
+                    # itself writes says nothing about the device): the session is still given up within 6.5 K
+                    classes.add("vanished_while_the_application_keeps_sending")
+                    dev.auto = set()
+                    for _ in range(16):
+                        await asyncio.sleep(K / 2)
+                        try:
+                            cli.switch_command(1, True)
+                        except APIConnectionError:
+                            break
                 elif what in ("pingtimeout", "pingtimeout_late"):
                     if st_ != "CONNECTED":
                         stats["skipped"] += 1
@@ -524,7 +538,7 @@ def _case(draw, tier):
                 steps.append({"op": "disc_cancel"})
                 continue
             else:
-                steps.append({"op": "dev", "what": draw(st.sampled_from(["eof", "reset", "garbage", "discreq", "pingtimeout", "pingtimeout_late", "resp+discreq", "resp+garbage", "resp+eof"]))})
+                steps.append({"op": "dev", "what": draw(st.sampled_from(["eof", "reset", "garbage", "discreq", "pingtimeout", "pingtimeout_late", "pingtimeout_busy", "resp+discreq", "resp+garbage", "resp+eof"]))})
             s = "IDLE"
     return {"noise": draw(st.integers(0, 3)) == 0, "keepalive": 2.0, "rot": draw(st.integers(0, 50)), "password": draw(st.sampled_from([None, "pw"])), "steps": steps,
             "reconnect_in_on_stop": draw(st.sampled_from([False, False, False, True, "after_await"]))}
@@ -540,7 +554,7 @@ def _disccancel_cases():
         for at in (1, 8, 32):
             for login in (False, True):
                 first = {"op": "connect", "tcp": "ok", "dev": "slowhello", "login": login, "interfere": {"what": "disccancel", "at": at}}
-                for what in ("eof", "reset", "garbage", "pingtimeout", "pingtimeout_late", "discreq"):
+                for what in ("eof", "reset", "garbage", "pingtimeout", "pingtimeout_late", "pingtimeout_busy", "discreq"):
                     yield {"noise": noise, "keepalive": 2.0, "rot": at, "steps": [first, {"op": "dev", "what": what}] + second}
                 yield {"noise": noise, "keepalive": 2.0, "rot": at, "steps": [first, {"op": "disconnect", "force": True}] + second}
 
